@@ -266,6 +266,9 @@ def replay_exports(index, ob, seed, saved=None):
         def __init__(self, *a, **k):
             super().__init__(*a, **k)
             created.append(self.name)
+    import contextlib, io
+    _quiet = contextlib.redirect_stdout(io.StringIO())
+    _quiet.__enter__()
     try:
         enc.tempfile.TemporaryDirectory = Rec
 
@@ -318,6 +321,7 @@ def replay_exports(index, ob, seed, saved=None):
                                   "leftover_temp_dirs": leftovers, "listing": listing})
         return _r(False)
     finally:
+        _quiet.__exit__(None, None, None)
         enc.tempfile.TemporaryDirectory = real_td
         shutil.rmtree(base, ignore_errors=True)
 
